@@ -170,6 +170,40 @@ def _work(job: t.Tuple[t.Any, ...]) -> evid.Local:
             chain = L.FilterNot(chain) if i % 3 == 0 else L.FilterAnd([chain, leaf]) if i % 3 == 1 else L.FilterOr([leaf, chain])
             if i in (9, 11, 29, 59):
                 rec(chain, "deep")
+        # nesting as deep as the parser accepts (its limit is the interpreter's recursion limit, ~490 levels): the text form
+        # must exist, be the RFC's (built here alongside the tree) and parse back to an equal tree (compared iteratively)
+        from vf.checks.c15 import same_filter
+
+        for depth in (100, 200, 249, 250, 251, 300, 400, 450):
+            for shape in ("not", "and", "or", "mix"):
+                node: t.Any = L.FilterEquality("cn", b")(")
+                text = "(cn=\\29\\28)"
+                for i in range(depth):
+                    op = shape if shape != "mix" else ("not", "and", "or")[i % 3]
+                    if op == "not":
+                        node, text = L.FilterNot(node), f"(!{text})"
+                    elif op == "and":
+                        node, text = L.FilterAnd([node, L.FilterPresent("a")]), f"(&{text}(a=*))"
+                    else:
+                        node, text = L.FilterOr([L.FilterPresent("a"), node]), f"(|(a=*){text})"
+                loc.add("states")
+                loc.add("transitions", 3)
+                case = {"deep": [shape, depth]}
+                try:
+                    got = str(node)
+                except BaseException as e:  # noqa: BLE001
+                    loc.violation(f"str-raises:{type(e).__name__}:deep-nesting", f"str() of a {shape} chain nested {depth} deep raised {type(e).__name__}", case)
+                    continue
+                if got != text:
+                    loc.violation(f"text-form-wrong:deep-nesting:{shape}", f"{shape} chain nested {depth} deep prints as {got[:60]}...", case)
+                    continue
+                try:
+                    back = L.LDAPFilter.from_string(got)
+                except BaseException as e:  # noqa: BLE001
+                    loc.violation(f"reparse-raises:{type(e).__name__}:deep-nesting", f"text form of a {shape} chain nested {depth} deep does not parse: {type(e).__name__}: {str(e)[:80]}", case)
+                    continue
+                if not same_filter(back, node):
+                    loc.violation(f"reparse-differs:deep-nesting:{shape}", f"text form of a {shape} chain nested {depth} deep parses to a different tree", case)
         rec(L.FilterAnd([L.FilterEquality("cn", b"v%d*" % i) for i in range(1500)]), "wide")
         rec(L.FilterSubstrings("cn", b"*", [b"%d" % i for i in range(1500)], b"\\"), "wide")
         rec(L.FilterOr([L.FilterAnd([L.FilterPresent("a%d" % i), L.FilterNot(L.FilterApproxMatch("b", b"~%d" % i))]) for i in range(64)]), "wide")
@@ -218,10 +252,24 @@ def run(ctx: evid.Ctx) -> None:
         "excluded because RFC 4515 text cannot express them: empty substring components, a substring filter with no component, "
         "an extensible match with neither rule nor attribute, a matching rule literally named 'dn'",
         "attribute descriptions are RFC 4512-valid (the property's premise)",
+        "nesting up to 450 levels; the parser reports text nested deeper than the interpreter's recursion limit allows (~490 levels) as a syntax error, which is resource exhaustion and not covered",
     ]
 
 
 def replay(case: t.Dict[str, t.Any], key: t.Optional[str] = None) -> t.Tuple[bool, str]:
+    if "deep" in case:
+        from vf.checks.c15 import same_filter
+
+        shape, depth = case["deep"]
+        node: t.Any = L.FilterEquality("cn", b")(")
+        for i in range(depth):
+            op = shape if shape != "mix" else ("not", "and", "or")[i % 3]
+            node = L.FilterNot(node) if op == "not" else L.FilterAnd([node, L.FilterPresent("a")]) if op == "and" else L.FilterOr([L.FilterPresent("a"), node])
+        try:
+            back = L.LDAPFilter.from_string(str(node))
+        except BaseException as e:  # noqa: BLE001
+            return False, f"{shape} chain nested {depth} deep: {type(e).__name__}: {str(e)[:100]}"
+        return same_filter(back, node), f"{shape} chain nested {depth} deep: text form parses back to an equal tree: {same_filter(back, node)}"
     f = A.unsrc(case["filter"])
     r = check_one(f)
     return (r is None), f"{case['filter'][:300]}\n  text: {str(f)!r}" + (f"\n  {r[0]}: {r[1]}" if r else "\n  round-trips")
